@@ -110,7 +110,15 @@ def layout_tensor(vs, rng, dtype):
     """Arrange a list of equal-length vectors as a tensor; returns (tensor, axis)."""
     D, B = len(vs[0]), len(vs)
     a = np.array(vs, dtype=dtype)  # (B, D)
-    choice = rng.randrange(5)
+    choice = rng.randrange(7)
+    if choice >= 5:
+        # the coefficient axis in the middle of a tensor of rank 3 / 4 (batch, coefficient, time)
+        b1 = max(d for d in range(1, B + 1) if B % d == 0 and d * d <= B) if choice == 5 else B
+        b1 = B // b1 if b1 == 1 else b1
+        t = np.ascontiguousarray(a.reshape(b1, B // b1, D).transpose(0, 2, 1))  # (b1, D, B / b1)
+        if choice == 6:
+            return t.reshape(b1, 1, D, B // b1), rng.choice([2, -2])
+        return t, rng.choice([1, -2])
     if choice == 0:
         return a, -1
     if choice == 1:
@@ -246,6 +254,8 @@ def drive(run, tier, rng, focus):
                             elif rng.random() < 0.6:
                                 # the flags are accepted for every kind of target; for .npy / raw they change nothing
                                 kw = dict(overwrite=ow, compress=comp)
+                                if rng.random() < 0.5:
+                                    kw["key"] = rng.choice(["k", "speaker-1"])  # ... and neither does a key: the target stays what its name says
                             try:
                                 if kind == "npz" and rng.random() < 0.4:
                                     # (the documented positional order: wfilename, key, compress, overwrite)
